@@ -1,14 +1,41 @@
-"""C03 — tools outside the allowed capability set are never executed, on any path."""
+"""C03 — tools outside the allowed capability set are never executed, on any path.
+
+Protocol (see lean/Operon/Drv/C03.lean).  Axes driven on the real code:
+  * ceiling: None / empty / any set of tags, handed over as set / frozenset / list / tuple, re-assigned on the live
+    engine (`setal`);
+  * tags: the six core `Capability` members (0..5) and foreign tags (6.. : plain strings, members of a plug-in's own
+    Enum, incl. ones that agree with a core member in name and value);
+  * tools: hand-written Tool-protocol objects (with / without parameters_schema, declaration as set / list / tuple /
+    frozenset, `required_capabilities` and/or `capabilities`), the library's SimpleTool, `register_function`, the
+    constructor's `tools=`; the SAME callable registered several times (same or other name, other declaration);
+    declarations re-assigned on the live tool object (`redecl`); removal;
+  * entry points: metabolize (forced / auto pathway, length guard, ROS latch), execute_tool_call, the LLM tool loop
+    with a scripted adversarial provider;
+  * registration WHILE a call is in flight: scripted slots (`arm`) fired by the argument expressions of a tool call
+    (callables placed in the evaluator's function table), by the evaluation of `**call.arguments` of a structured
+    call, and by the provider between rounds.
+"""
 from __future__ import annotations
 
+import enum
 import itertools
-from pathlib import Path
+import re
 
 from ..core import LEAN, REPO, Prop, Violation, import_repo, write_if_changed
 from ..extract import e1_caps
 
 NAMES = ["w", "f", "Foo", "sqrt", "tool_x", "net2"]
-NCAPS = 6
+NCORE = 6
+NCAPS = 10          # 6..9: foreign tags
+STYLES = "aabbcdegffk"
+
+
+class PluginCap(enum.Enum):          # a plug-in's own capability vocabulary
+    DB_WRITE = "db_write"
+    NET = "net"                      # same name and value as the core member, another tag
+
+
+FOREIGN = ["gpu", PluginCap.DB_WRITE, "net", PluginCap.NET]
 
 
 def caps_str(c):
@@ -23,15 +50,225 @@ def parse_caps(s):
     return [] if s == "-" else [int(x) for x in s.split(",")]
 
 
+def parse_slots(spec):
+    """'@1,2' -> [1, 2]"""
+    return [int(x) for x in spec[1:].split(",") if x.isdigit()]
+
+
+def parse_round(r):
+    """-> (slots the provider fires before answering, [(name, [slots of the call's arguments])])"""
+    before, calls = [], []
+    if r == "-":
+        return before, calls
+    for e in r.split(","):
+        if e.startswith("^"):
+            if e[1:].isdigit():
+                before.append(int(e[1:]))
+        else:
+            parts = e.split("@")
+            calls.append((parts[0], [int(x) for x in parts[1:] if x.isdigit()]))
+    return before, calls
+
+
+def slots_in_case(lines):
+    out = set()
+    for l in lines:
+        t = l.split()
+        if not t:
+            continue
+        if t[0] == "arm" and len(t) > 1 and t[1].isdigit():
+            out.add(int(t[1]))
+        elif t[0] in ("met", "call") and t[-1].startswith("@"):
+            out.update(parse_slots(t[-1]))
+        elif t[0] == "loop" and len(t) > 3 and t[-1] != ".":
+            for r in t[-1].split(";"):
+                before, calls = parse_round(r)
+                out.update(before)
+                for _, sl in calls:
+                    out.update(sl)
+    return sorted(out)
+
+
+def _required(rec):
+    req, caps = rec["req"], rec["caps"]
+    return set(req) if req else set(caps) if caps else set()
+
+
+class _Run:
+    """One case on the real code."""
+
+    def __init__(self, prop, case):
+        self.p = prop
+        self.case = case
+        self.mm, self.nn, self.pp = prop.mm, prop.nn, prop.pp
+        self.mito = None
+        self.cfg = (None, "set")     # constructor arguments of the engine not yet built
+        self.ctor_tools = []         # tools handed to the constructor (`reg … k` lines right after cfg)
+        self.allowed = None          # ceiling in force (indices) as the harness assigned it
+        self.counter = []            # body ids in execution order
+        self.timeline = []           # ("reg", name, rec) ("unreg", name) ("run", body, raises, rid) ("round", i) ("args", key)
+        self.regs = {}               # name -> registration record as the harness declared it
+        self.fns = {}                # (body, raises) -> callable
+        self.slots = {}              # slot -> [token lists]
+        self.next_rid = 0
+        self.cur_rid = None
+        lines = case["lines"]
+        self.slot_ids = slots_in_case(lines)
+        bodies = [l.split()[2 if l.startswith("reg ") else 4] for l in lines
+                  if (l.startswith("reg ") and len(l.split()) > 2) or (l.startswith("arm ") and len(l.split()) > 4
+                                                                        and l.split()[2] == "reg")]
+        self.exact_loop = any(l.startswith("arm ") for l in lines) or len(bodies) != len(set(bodies))
+
+    # --- engine ---------------------------------------------------------------------------------------
+    def tag(self, i):
+        return self.p.caps[i] if i < len(self.p.caps) else f"tag{i}"
+
+    def conv(self, al, style):
+        c = {"set": set, "frozenset": frozenset, "list": list, "tuple": tuple}.get(style, set)
+        return None if al is None else c(self.tag(i) for i in al)
+
+    def configure(self, al, style="set"):
+        self.mito = None
+        self.cfg = (al, style)
+        self.ctor_tools = []
+        self.allowed = al
+        self.counter.clear()
+        self.regs.clear()
+        self.fns.clear()
+        self.slots.clear()
+
+    def engine(self):
+        if self.mito is None:
+            al, style = self.cfg
+            kw = {"tools": list(self.ctor_tools)} if self.ctor_tools else {}
+            self.mito = self.mm.Mitochondria(allowed_capabilities=self.conv(al, style), silent=True, max_ros=1e9, **kw)
+            self.ctor_tools = []
+        return self.mito
+
+    # --- tools ----------------------------------------------------------------------------------------
+    def fn(self, body, raises):
+        key = (body, raises)
+        if key not in self.fns:
+            def f(*a, **k):
+                self.counter.append(body)
+                self.timeline.append(("run", body, raises, self.cur_rid))
+                if raises:
+                    raise RuntimeError("tool body raised")
+                return body
+            self.fns[key] = f
+        return self.fns[key]
+
+    def register(self, toks):
+        """reg <name> <body> <req> <caps> <raises> [style] through the public registration API"""
+        name, body, req, caps, raises = toks[1], int(toks[2]), parse_caps(toks[3]), parse_caps(toks[4]), toks[5] == "1"
+        style = toks[6] if len(toks) > 6 else "a"
+        if style in "cfk" and caps is not None:
+            style = "a"              # SimpleTool / register_function only have required_capabilities
+        self.next_rid += 1
+        rid = self.next_rid
+        rec = {"rid": rid, "body": body, "req": req, "caps": caps, "raises": raises, "name": name}
+        f = self.fn(body, raises)
+        run = self
+        if style in "ck":
+            tool = self.mm.SimpleTool(name=name, description="t", func=f,
+                                      required_capabilities=set() if req is None else {self.tag(i) for i in req})
+            if style == "k" and self.mito is None:
+                self.ctor_tools.append(tool)      # goes through the constructor's tools=
+            else:
+                self.engine().engulf_tool(tool)
+        elif style == "f":
+            self.engine().register_function(name, f, "t", required_capabilities=None if req is None
+                                            else {self.tag(i) for i in req})
+        else:
+            class T:
+                description = "t"
+                parameters_schema = {"type": "object", "properties": {}}
+
+                def execute(self_, *a, **k):
+                    run.cur_rid = rid
+                    try:
+                        return f(*a, **k)
+                    finally:
+                        run.cur_rid = None
+
+            class B:                     # bare Tool-protocol object: no parameters_schema attribute
+                description = "t"
+                execute = T.execute
+            t = B() if style == "b" else T()
+            t.name = name
+            conv = {"d": list, "e": tuple, "g": frozenset}.get(style, set)
+            if req is not None:
+                t.required_capabilities = conv(self.tag(i) for i in req)
+            if caps is not None:
+                t.capabilities = conv(self.tag(i) for i in caps)
+            self.engine().engulf_tool(t)
+        self.regs[name] = rec
+        self.timeline.append(("reg", name, rec))
+
+    def unregister(self, name):
+        self.engine().tools.pop(name, None)
+        self.regs.pop(name, None)
+        self.timeline.append(("unreg", name))
+
+    def redeclare(self, name, req, caps):
+        obj = self.engine().tools.get(name)
+        if obj is None or name not in self.regs:
+            return
+        for attr, val in (("required_capabilities", req), ("capabilities", caps)):
+            if val is None:
+                try:
+                    delattr(obj, attr)
+                except AttributeError:
+                    pass
+            else:
+                setattr(obj, attr, {self.tag(i) for i in val})
+        self.regs[name] = dict(self.regs[name], req=req, caps=caps)
+
+    def fire(self, slot):
+        for toks in self.slots.get(slot, []):
+            if toks[0] == "reg":
+                self.register(toks)
+            else:
+                self.unregister(toks[1])
+
+    def args_mapping(self, key, slots):
+        run = self
+
+        class Args(dict):
+            """the `arguments` of a ToolCall: evaluating `**arguments` fires the scripted slots (once)"""
+            fired = False
+
+            def _fire(s):
+                if not s.fired:
+                    s.fired = True
+                    run.timeline.append(("args", key))
+                    for x in slots:
+                        run.fire(x)
+
+            def keys(s):
+                s._fire()
+                return dict.keys(s)
+
+            def __iter__(s):
+                s._fire()
+                return dict.__iter__(s)
+        return Args()
+
+
 class C03(Prop):
     id = "C03"
     title = "Tools outside the allowed capability set are never executed, on any path"
     fixed_prefix = 1
     quick_budget = 1500
     thorough_budget = 30000
+    all_branches = ["met-success", "met-PermissionError", "met-ToolRaised", "met-ArgError", "met-ValueError",
+                    "met-NotToolPathway", "met-TooLong", "met-RosLatched", "call-success", "call-PermissionError",
+                    "call-ToolRaised", "call-UnknownTool", "loop", "loop-noschemas", "inflight"]
     assumptions = [
         "tool bodies return or raise; they do not call back into the engine",
-        "evaluation of tool-call arguments executes no tool (C01); its outcome (ok / raises) is an input of the model",
+        "evaluation of tool-call arguments executes no tool (C01); what it does to the registry through the public "
+        "registration API and whether it then succeeds or raises are inputs of the model",
+        "a declaration is not re-assigned on the live tool object while a request for that tool is in flight",
         "the ROS latch, the length guard and pathway auto-detection are inputs (recorded from the real run); the theorems hold whatever they decide",
     ]
     trusted_modelled = [
@@ -46,7 +283,8 @@ class C03(Prop):
         from operon_ai.core.types import Capability
         from operon_ai import providers as pp
         self.mm, self.nn, self.pp = mm, nn, pp
-        self.caps = list(Capability)
+        core = list(Capability)
+        self.caps = (core + [f"pad{i}" for i in range(NCORE)])[:NCORE] + FOREIGN
 
     def extract(self, ctx):
         facts = e1_caps.extract(REPO)
@@ -58,39 +296,82 @@ class C03(Prop):
         k = rng.choice([0, 0, 1, 1, 2, 3])
         if allow_none and rng.random() < 0.15:
             return None
-        return sorted(rng.sample(range(NCAPS), k))
+        pool = range(NCORE) if rng.random() < 0.5 else range(NCAPS)
+        return sorted(rng.sample(pool, k))
+
+    def _rand_reg(self, rng, name, body):
+        req = self._rand_caps(rng)
+        cp = self._rand_caps(rng) if rng.random() < 0.4 else None
+        style = rng.choice(STYLES)
+        if style in "cfk":
+            cp = None            # SimpleTool / register_function only has required_capabilities
+        return f"reg {name} {body} {caps_str(req)} {caps_str(cp)} {1 if rng.random() < 0.2 else 0} {style}"
 
     def generate(self, rng, tier, n):
         for _ in range(n):
             al = self._rand_caps(rng)
             lines = [f"cfg {caps_str(al)} {rng.choice(['set', 'set', 'frozenset', 'list', 'tuple'])}"]
-            body = 0
+            nbody = 0
+            raising = {}
+            armed = []
+            inflight = rng.random() < 0.45
+
+            def reg_line(name):
+                nonlocal nbody
+                if nbody and rng.random() < 0.3:
+                    body = rng.randint(1, nbody)        # the same callable again (same or another name)
+                else:
+                    nbody += 1
+                    body = nbody
+                l = self._rand_reg(rng, name, body).split()
+                l[5] = raising.setdefault(body, l[5])   # one callable, one behaviour
+                return " ".join(l)
+
+            def slots():
+                if armed and rng.random() < 0.6:
+                    return rng.sample(armed, rng.randint(1, min(2, len(armed))))
+                return []
+            if rng.random() < 0.3:
+                for _k in range(rng.randint(1, 2)):     # tools handed to the constructor
+                    l = reg_line(rng.choice(NAMES)).split()
+                    l[4], l[6] = "none", "k"
+                    lines.append(" ".join(l))
             for _ in range(rng.randint(2, 12)):
                 r = rng.random()
                 name = rng.choice(NAMES)
-                if r < 0.3:
-                    body += 1
-                    req = self._rand_caps(rng)
-                    cp = self._rand_caps(rng) if rng.random() < 0.4 else None
-                    style = rng.choice("aabbcdeg")
-                    if style == "c":
-                        cp = None            # SimpleTool / register_function only has required_capabilities
-                    lines.append(f"reg {name} {body} {caps_str(req)} {caps_str(cp)} {1 if rng.random() < 0.2 else 0} {style}")
+                if r < 0.26:
+                    lines.append(reg_line(name))
+                elif r < 0.34 and inflight:
+                    s = rng.randint(1, 3)
+                    if s not in armed:
+                        armed.append(s)
+                    lines.append(f"arm {s} " + (reg_line(name) if rng.random() < 0.85 else f"unreg {name}"))
                 elif r < 0.55:
                     mode = rng.choice(["forced-oxid", "forced-oxid", "auto", "auto", "forced-other", "long", "ros"])
                     callee = rng.choice([f"name:{name}"] * 6 + ["notname", "notcall"])
-                    lines.append(f"met {mode} {callee} {1 if rng.random() < 0.8 else 0} other")
-                elif r < 0.6:
+                    a = rng.choice(["1"] * 7 + ["0", "0", f"n:{rng.choice(NAMES + ['ghost'])}"])
+                    ss = slots()
+                    lines.append(f"met {mode} {callee} {a} other" + (" @" + ",".join(map(str, ss)) if ss else ""))
+                elif r < 0.59:
                     lines.append("schemas")
-                elif r < 0.64:
+                elif r < 0.63:
                     lines.append(f"unreg {name}")
-                elif r < 0.8:
-                    lines.append(f"call {name}")
+                elif r < 0.67:
+                    lines.append(f"redecl {name} {caps_str(self._rand_caps(rng))} "
+                                 f"{caps_str(self._rand_caps(rng) if rng.random() < 0.3 else None)}")
+                elif r < 0.70:
+                    lines.append(f"setal {caps_str(self._rand_caps(rng))} {rng.choice(['set', 'frozenset', 'list', 'tuple'])}")
+                elif r < 0.83:
+                    ss = slots()
+                    lines.append(f"call {name}" + (" @" + ",".join(map(str, ss)) if ss else ""))
                 else:
                     k = rng.randint(0, 4)
                     rounds = []
                     for _ in range(rng.randint(0, 5)):
-                        rounds.append([rng.choice(NAMES + ["ghost"]) for _ in range(rng.randint(0, 3))])
+                        rd = ["^" + str(s) for s in slots()[:1]] if rng.random() < 0.4 else []
+                        for _c in range(rng.randint(0, 3)):
+                            rd.append(rng.choice(NAMES + ["ghost"]) + "".join(f"@{s}" for s in (slots() if rng.random() < 0.4 else [])))
+                        rounds.append(rd)
                     rs = ";".join(",".join(r_) if r_ else "-" for r_ in rounds) or "."
                     lines.append(f"loop {k} {1 if rng.random() < 0.9 else 0} {rng.choice(['uniq', 'same', 'byname'])} {rs}")
             yield {"lines": lines, "note": "random"}
@@ -129,7 +410,7 @@ class C03(Prop):
         styl = []
         for al in ([], [0]):
             bad = [2]
-            for style in "abc":
+            for style in "abcf":
                 for pre in ([], ["schemas"], ["schemas", "schemas"]):
                     for e in entries + ["loop 2 1 same w,f;f,w", "loop 2 1 same f,w", "loop 1 1 byname w,f,w"]:
                         styl.append({"lines": [f"cfg {caps_str(al)}", f"reg w 1 {caps_str(bad)} none 0 {style}",
@@ -149,114 +430,160 @@ class C03(Prop):
                         for e in entries:
                             cont.append({"lines": [f"cfg {caps_str(al)} {cst}", f"reg w 1 {caps_str(req)} none 0 {tstyle}", e],
                                          "note": "exhaustive container types of ceiling and declaration x entry"})
+        # foreign tags: plain strings and members of a plug-in's own Enum, next to the core member they resemble
+        tags = [2, 6, 7, 8, 9]           # Capability.NET, 'gpu', PluginCap.DB_WRITE, 'net', PluginCap.NET
+        tsub = [[]] + [[a] for a in tags] + [[2, 6], [2, 8], [8, 9], [2, 9], [6, 7]]
+        forg = []
+        for al in tsub:
+            for req in tsub[1:]:
+                for style in (("a", "c", "f") if tier == "quick" else ("a", "b", "c", "f", "k", "d")):
+                    for e in entries:
+                        forg.append({"lines": [f"cfg {caps_str(al)}", f"reg w 1 {caps_str(req)} none 0 {style}", e],
+                                     "note": "exhaustive foreign capability tags x style x entry"})
+        # the SAME callable registered again (same name / another name) with another declaration, through every
+        # registration entry point incl. the constructor's tools=
+        same = []
+        for al in ([], [0]):
+            ok, bad = al[:1], al[:1] + [2]
+            for s1 in "kfca":
+                for s2 in "fcka":
+                    for e1 in entries[:3]:
+                        for e2 in entries:
+                            same.append({"lines": [f"cfg {caps_str(al)}", f"reg w 1 {caps_str(ok)} none 0 {s1}", e1,
+                                                   f"reg w 1 {caps_str(bad)} none 0 {s2}", e2,
+                                                   f"reg w 1 {caps_str(ok)} none 0 {s1}", e2],
+                                         "note": "exhaustive same callable re-registered with a tighter declaration"})
+                    same.append({"lines": [f"cfg {caps_str(al)}", f"reg w 1 {caps_str(bad)} none 0 {s1}",
+                                           f"reg f 1 {caps_str(ok)} none 0 {s2}", "call w", "call f",
+                                           "met forced-oxid name:w 1 other", "met auto name:f 1 other",
+                                           "loop 2 1 uniq w,f;f,w"],
+                                 "note": "exhaustive same callable under two names with different declarations"})
+        # declaration re-assigned on the live object; ceiling re-assigned on the live engine
+        live = []
+        for al in ([], [0]):
+            ok, bad = al[:1], al[:1] + [2]
+            for style in "acf":
+                for e1 in entries:
+                    for e2 in entries:
+                        live.append({"lines": [f"cfg {caps_str(al)}", f"reg w 1 {caps_str(ok)} none 0 {style}", e1,
+                                               f"redecl w {caps_str(bad)} none", e2, f"redecl w {caps_str(ok)} none", e2],
+                                     "note": "exhaustive re-declaration on the live tool object"})
+                        live.append({"lines": [f"cfg {caps_str(bad)}", f"reg w 1 {caps_str(bad)} none 0 {style}", e1,
+                                               f"setal {caps_str(al)}", e2, "setal none", e2, "setal -", e2],
+                                     "note": "exhaustive ceiling re-assigned on the live engine"})
+        # registration while a call is in flight: during argument evaluation of the expression pathway, during the
+        # evaluation of **call.arguments, by the provider between rounds
+        infl = []
+        flights = ["met forced-oxid name:w 1 other @1", "met auto name:w 1 other @1", "met forced-oxid name:w 0 other @1",
+                   "met forced-oxid name:w n:f other @1", "call w @1", "loop 2 1 uniq w@1;w", "loop 3 1 uniq w,^1;w;w",
+                   "loop 2 1 uniq w@1,w"]
+        for al in ([], [0]):
+            ok, bad = al[:1], al[:1] + [2]
+            for style in "af":
+                for fl in flights:
+                    for e2 in entries:
+                        infl.append({"lines": [f"cfg {caps_str(al)}", f"reg w 1 {caps_str(ok)} none 0 {style}",
+                                               f"arm 1 reg w 2 {caps_str(bad)} none 0 {style}", fl, e2],
+                                     "note": "exhaustive in-flight re-registration with a more privileged tool"})
+                        infl.append({"lines": [f"cfg {caps_str(al)}", f"reg w 1 {caps_str(bad)} none 0 {style}",
+                                               f"reg f 3 {caps_str(ok)} none 0 {style}",
+                                               f"arm 1 reg w 2 {caps_str(ok)} none 0 {style}",
+                                               fl, e2],
+                                     "note": "exhaustive in-flight re-registration (refused request fires nothing)"})
+                    infl.append({"lines": [f"cfg {caps_str(al)}", f"reg w 1 {caps_str(ok)} none 0 {style}",
+                                           "arm 1 unreg w", f"arm 1 reg f 2 {caps_str(bad)} none 0 {style}", fl, "call w", "call f"],
+                                 "note": "exhaustive in-flight removal + registration of another name"})
         return [{"name": "container types (set/frozenset/list/tuple) of the ceiling and of the tool's declaration x entry points",
                  "cases": cont},
                 {"name": "re-registration histories: allowed/used/re-registered outside the ceiling x entry-point pairs",
                  "cases": hist},
-                {"name": "tool-object styles (with/without parameters_schema, SimpleTool) x schema export x entry points incl. duplicate call ids",
+                {"name": "tool-object styles (with/without parameters_schema, SimpleTool, register_function) x schema export x entry points incl. duplicate call ids",
                  "cases": styl},
+                {"name": "foreign capability tags (strings, plug-in Enum members, look-alikes of a core member) in ceiling and declaration x style x entry point",
+                 "cases": forg},
+                {"name": "same callable registered again (tools=, register_function, SimpleTool, object) with another declaration x entry-point pairs; same callable under two names",
+                 "cases": same},
+                {"name": "declaration re-assigned on the live tool object / ceiling re-assigned on the live engine x entry-point pairs",
+                 "cases": live},
+                {"name": "registration while a call is in flight (argument expressions, **call.arguments, provider between rounds) x follow-up entry point",
+                 "cases": infl},
                 {"name": f"ceilings x declared capability sets (subsets of 3 caps, size <= {size}) x attribute style x entry point",
                  "cases": cases}]
 
     # --- implementation -----------------------------------------------------------------------------------
-    def _mk_tool(self, name, body, req, caps, raises, counter, style="a"):
-        def fn(*a, **k):
-            counter.append(body)
-            if raises:
-                raise RuntimeError("tool body raised")
-            return body
-        C = self.caps
-
-        class T:
-            description = "t"
-            parameters_schema = {"type": "object", "properties": {}}
-
-            def execute(self, *a, **k):
-                return fn(*a, **k)
-        if style == "c" and caps is None:
-            # the library's own SimpleTool (what register_function builds)
-            return self.mm.SimpleTool(name=name, description="t", func=fn,
-                                      required_capabilities=set() if req is None else {C[i] for i in req})
-        if style == "b":
-            class B:                     # bare Tool-protocol object: no parameters_schema attribute
-                description = "t"
-
-                def execute(self, *a, **k):
-                    return fn(*a, **k)
-            t = B()
-        else:
-            t = T()
-        t.name = name
-        conv = {"d": list, "e": tuple, "g": frozenset}.get(style, set)
-        if req is not None:
-            t.required_capabilities = conv(C[i] for i in req)
-        if caps is not None:
-            t.capabilities = conv(C[i] for i in caps)
-        return t
-
     def run_impl(self, case):
+        R = _Run(self, case)
+        table = self.mm.Mitochondria.SAFE_FUNCTIONS
+        hooks = {f"hook{s}": (lambda *a, _s=s, **k: R.fire(_s)) for s in R.slot_ids}
+        added = [k for k in hooks if k not in table]
+        for k in added:
+            table[k] = hooks[k]          # scripted callables in the evaluator's function table (class-level dict)
+        try:
+            return self._run(R, case)
+        finally:
+            for k in added:
+                table.pop(k, None)
+
+    def _run(self, R, case):
         mm, nn, pp = self.mm, self.nn, self.pp
         obs = []
-        mito = None
-        counter = []       # body ids in execution order
-        decl = {}          # body id -> (req, caps)
-        allowed = None
-        reg = {}           # name -> body id
-        raising = {}       # body id -> raises
-        info = []          # per line: bodies executed during that line
-
-        def new(al, style="set"):
-            nonlocal mito, allowed
-            allowed = al
-            # the ceiling may be handed over as any collection; the decision must not depend on its container type
-            conv = {"set": set, "frozenset": frozenset, "list": list, "tuple": tuple}.get(style, set)
-            mito = mm.Mitochondria(allowed_capabilities=None if al is None else conv(self.caps[i] for i in al),
-                                   silent=True, max_ros=1e9)
-            counter.clear()
-            decl.clear()
-            reg.clear()
-            raising.clear()
-
-        def ros():
-            return int(round(mito.get_ros_level() * 10))
+        info = []          # per line: ceiling in force, registry at the start of the line, what happened during it
+        counter = R.counter
+        started = False
 
         for li, line in enumerate(case["lines"]):
             t = line.split()
             n0 = len(counter)
+            R.timeline = []
+            start_reg = dict(R.regs)
             if t[0] == "cfg":
-                new(parse_caps(t[1]), t[2] if len(t) > 2 else "set")
+                R.configure(parse_caps(t[1]), t[2] if len(t) > 2 else "set")
+                started = True
                 obs.append("ok")
-            elif mito is None:
-                new(None)
-                obs.append("bad-op") if t[0] not in ("reg", "met", "call", "loop", "unreg", "schemas") else None
+            elif not started:
+                R.configure(None)
+                started = True
+                if t[0] not in ("reg", "met", "call", "loop", "unreg", "schemas", "redecl", "setal", "arm"):
+                    obs.append("bad-op")
+                    info.append({"ran": [], "ceiling": None, "start_reg": {}, "timeline": []})
+                    continue
             if t[0] == "reg":
-                body, req, caps, raises = int(t[2]), parse_caps(t[3]), parse_caps(t[4]), t[5] == "1"
-                style = t[6] if len(t) > 6 else "a"
-                if style == "c" and caps is not None:
-                    style = "a"
-                decl[body] = (req, caps)
-                reg[t[1]] = body
-                raising[body] = raises
-                mito.engulf_tool(self._mk_tool(t[1], body, req, caps, raises, counter, style))
+                R.register(t)
                 obs.append("ok")
             elif t[0] == "unreg":
-                mito.tools.pop(t[1], None)
-                reg.pop(t[1], None)
+                R.unregister(t[1])
                 obs.append("ok")
+            elif t[0] == "redecl":
+                R.redeclare(t[1], parse_caps(t[2]), parse_caps(t[3]))
+                obs.append("ok")
+            elif t[0] == "setal":
+                al = parse_caps(t[1])
+                R.engine().allowed_capabilities = R.conv(al, t[2] if len(t) > 2 else "set")
+                R.allowed = al
+                obs.append("ok")
+            elif t[0] == "arm":
+                if len(t) >= 4 and t[1].isdigit() and ((t[2] == "reg" and len(t) >= 8) or (t[2] == "unreg" and len(t) == 4)):
+                    R.slots.setdefault(int(t[1]), []).append(t[2:])
+                    obs.append("ok")
+                else:
+                    obs.append("bad-op")
             elif t[0] == "schemas":
                 try:
-                    mito.export_tool_schemas()
-                    mito.list_tools()
+                    R.engine().export_tool_schemas()
+                    R.engine().list_tools()
                     obs.append("ok")
                 except Exception as e:
                     obs.append(f"raise:{type(e).__name__}")
             elif t[0] == "met":
-                mode, callee, args_ok = t[1], t[2], t[3] == "1"
-                args = "1, x=2" if args_ok else "undefined_name_zz"
+                mito = R.engine()
+                mode, callee, a = t[1], t[2], t[3]
+                slots = parse_slots(t[5]) if len(t) > 5 else []
+                args = "1, x=2" if a == "1" else f"{a[2:]}(4)" if a.startswith("n:") else "undefined_name_zz"
+                args = ", ".join([f"hook{s}()" for s in slots] + [args])
                 if callee.startswith("name:"):
                     expr = f"{callee[5:]}({args})"
                 elif callee == "notname":
-                    expr = f"(w)({args})" if False else f"w.x({args})"
+                    expr = f"w.x({args})"
                 else:
                     expr = "1 + 2"
                 P = mm.MetabolicPathway
@@ -303,89 +630,135 @@ class C03(Prop):
                     res = "fail"        # value of the other pathways is C01/C02's business
                 obs.append(f"{res} [{','.join(map(str, counter))}]")
             elif t[0] == "call":
+                mito = R.engine()
+                arguments = R.args_mapping("call", parse_slots(t[2])) if len(t) > 2 else {}
                 try:
-                    r = mito.execute_tool_call(pp.ToolCall(id="c1", name=t[1], arguments={}))
+                    r = mito.execute_tool_call(pp.ToolCall(id="c1", name=t[1], arguments=arguments))
                     res = "ok" if r.success else ("failx" if len(counter) > n0 else "fail")
                 except Exception as e:
                     res = f"raise:{type(e).__name__}"
                 obs.append(f"{res} [{','.join(map(str, counter))}]")
             elif t[0] == "loop":
-                k, auto = int(t[1]), t[2] == "1"
-                idmode, rtxt = (t[3], t[4]) if len(t) > 4 else ("uniq", t[3])
-                rounds = [] if rtxt == "." else [([] if r == "-" else r.split(",")) for r in rtxt.split(";")]
-                served = []      # rounds actually handed out by the provider (non-empty ones)
-
-                class Prov:
-                    name = "scripted"
-
-                    def __init__(s):
-                        s.i = 0
-
-                    def is_available(s):
-                        return True
-
-                    def complete(s, prompt, config=None):
-                        return pp.LLMResponse(content="final", model="m", tokens_used=1, latency_ms=0.0)
-
-                    def complete_with_tools(s, prompt, tools=None, config=None):
-                        rd = rounds[s.i] if s.i < len(rounds) else []
-                        s.i += 1
-                        ident = (lambda j, nm: f"c{j}") if idmode == "uniq" else \
-                            (lambda j, nm: "c") if idmode == "same" else (lambda j, nm: f"id-{nm}")
-                        calls = [pp.ToolCall(id=ident(j, nm), name=nm, arguments={}) for j, nm in enumerate(rd)]
-                        if calls:
-                            served.append((list(rd), len(counter)))
-                        return pp.LLMResponse(content="r", model="m", tokens_used=1, latency_ms=0.0), calls
-                nuc = nn.Nucleus(provider=Prov())
-                try:
-                    nuc.transcribe_with_tools("p", mito, max_iterations=k, auto_execute=auto)
-                    # per-call outcome = did the registered body run, and did it return: read off the execution log
-                    shown_rounds = []
-                    for ri, (rd, c0) in enumerate(served):
-                        c1 = served[ri + 1][1] if ri + 1 < len(served) else len(counter)
-                        ran = list(counter[c0:c1])
-                        if not auto:
-                            continue
-                        outs = []
-                        for nm in rd:
-                            b = reg.get(nm)
-                            if b is not None and ran and ran[0] == b:
-                                ran.pop(0)
-                                outs.append("failx" if raising.get(b) else "ok")
-                            else:
-                                outs.append("fail")
-                        if ran:
-                            outs.append("extra:" + ".".join(map(str, ran)))
-                        shown_rounds.append("[" + ",".join(outs) + "]")
-                    # a round handed out after the budget was exhausted is not executed: drop trailing unexecuted rounds
-                    shown = "[" + ",".join(shown_rounds) + "]"
-                except Exception as e:
-                    shown = f"raise:{type(e).__name__}"
-                obs.append(f"{shown} [{','.join(map(str, counter))}]")
+                obs.append(self._loop(R, t))
             elif t[0] != "cfg":
                 obs.append("bad-op")
-            info.append({"ran": counter[n0:], "allowed": allowed, "decl": dict(decl), "reg": dict(reg)})
+            info.append({"ran": counter[n0:], "ceiling": R.allowed, "start_reg": start_reg, "timeline": R.timeline})
         return obs, info
 
-    # --- oracle (property text) ----------------------------------------------------------------------------
-    @staticmethod
-    def _required(decl):
-        req, caps = decl
-        return set(req) if req else set(caps) if caps else set()
+    def _loop(self, R, t):
+        pp, nn = self.pp, self.nn
+        mito = R.engine()
+        counter = R.counter
+        k, auto = int(t[1]), t[2] == "1"
+        idmode, rtxt = (t[3], t[4]) if len(t) > 4 else ("uniq", t[3])
+        rounds = [] if rtxt == "." else [parse_round(r) for r in rtxt.split(";")]
+        exact = R.exact_loop or any(b or any(s for _, s in c) for b, c in rounds)
+        served = []      # rounds actually handed out by the provider (non-empty ones): (names, log position, registry then)
 
+        class Prov:
+            name = "scripted"
+
+            def __init__(s):
+                s.i = 0
+
+            def is_available(s):
+                return True
+
+            def complete(s, prompt, config=None):
+                return pp.LLMResponse(content="final", model="m", tokens_used=1, latency_ms=0.0)
+
+            def complete_with_tools(s, prompt, tools=None, config=None):
+                before, rd = rounds[s.i] if s.i < len(rounds) else ([], [])
+                ri = s.i
+                s.i += 1
+                R.timeline.append(("round", ri))
+                for slot in before:
+                    R.fire(slot)            # the provider uses the registration API before it answers
+                ident = (lambda j, nm: f"c{j}") if idmode == "uniq" else \
+                    (lambda j, nm: "c") if idmode == "same" else (lambda j, nm: f"id-{nm}")
+                calls = [pp.ToolCall(id=ident(j, nm), name=nm,
+                                     arguments=R.args_mapping((ri, j), sl) if exact else {})
+                         for j, (nm, sl) in enumerate(rd)]
+                if calls:
+                    served.append(([nm for nm, _ in rd], len(counter), {n_: r_["body"] for n_, r_ in R.regs.items()}, ri))
+                return pp.LLMResponse(content="r", model="m", tokens_used=1, latency_ms=0.0), calls
+        nuc = nn.Nucleus(provider=Prov())
+        try:
+            nuc.transcribe_with_tools("p", mito, max_iterations=k, auto_execute=auto)
+            shown_rounds = []
+            tl = R.timeline
+            for si, (rd, c0, regthen, ri) in enumerate(served):
+                if not auto:
+                    continue
+                c1 = served[si + 1][1] if si + 1 < len(served) else len(counter)
+                outs = []
+                if exact:
+                    # every call carries its own arguments object: a call that got as far as evaluating them is marked
+                    lo = tl.index(("round", ri))
+                    hi = next((i for i in range(lo + 1, len(tl)) if tl[i][0] == "round"), len(tl))
+                    seg = tl[lo:hi]
+                    marks = [i for i, ev in enumerate(seg) if ev[0] == "args"]
+                    first = marks[0] if marks else len(seg)
+                    stray = [ev[1] for ev in seg[:first] if ev[0] == "run"]
+                    for j, nm in enumerate(rd):
+                        pos = next((i for i in marks if seg[i][1] == (ri, j)), None)
+                        if pos is None:
+                            outs.append("fail")
+                            continue
+                        nxt = next((i for i in marks if i > pos), len(seg))
+                        runs = [ev for ev in seg[pos:nxt] if ev[0] == "run"]
+                        outs.append("fail" if not runs else "failx" if runs[0][2] else "ok")
+                        stray += [ev[1] for ev in runs[1:]]
+                    if stray:
+                        outs.append("extra:" + ".".join(map(str, stray)))
+                else:
+                    # per-call outcome = did the registered body run, and did it return: read off the execution log
+                    ran = list(counter[c0:c1])
+                    raising = {r_["body"]: r_["raises"] for r_ in R.regs.values()}
+                    for nm in rd:
+                        b = regthen.get(nm)
+                        if b is not None and ran and ran[0] == b:
+                            ran.pop(0)
+                            outs.append("failx" if raising.get(b) else "ok")
+                        else:
+                            outs.append("fail")
+                    if ran:
+                        outs.append("extra:" + ".".join(map(str, ran)))
+                shown_rounds.append("[" + ",".join(outs) + "]")
+            shown = "[" + ",".join(shown_rounds) + "]"
+        except Exception as e:
+            shown = f"raise:{type(e).__name__}"
+        return f"{shown} [{','.join(map(str, counter))}]"
+
+    # --- oracle (property text) ----------------------------------------------------------------------------
     def oracle(self, case, obs, info):
         out = []
         for idx, (line, o, inf) in enumerate(zip(case["lines"], obs, info)):
-            al = inf["allowed"]
-            for b in inf["ran"]:
-                need = self._required(inf["decl"][b])
-                if al is not None and not need <= set(al):
-                    out.append(Violation("least_privilege", f"tool body {b} requiring {sorted(need)} not executed under ceiling {al}",
-                                         f"executed during `{line}`", idx))
-            for b in inf["ran"]:
-                if b not in inf["reg"].values():
-                    out.append(Violation("only_currently_registered", "only bodies registered at that moment run",
-                                         f"body {b} ran during `{line}` but the registry holds {sorted(inf['reg'].items())}", idx))
+            al = inf["ceiling"]
+            # "a registered tool whose declared required capabilities are not a subset of that set is never invoked":
+            # every execution of a body must be the execution of a tool object that held a name while the request was
+            # being served, and whose declaration - as registered / re-declared by the caller - is inside the ceiling
+            cur = dict(inf["start_reg"])
+            live = {r["rid"]: r for r in cur.values()}
+            for ev in inf["timeline"]:
+                if ev[0] == "round":
+                    live = {r["rid"]: r for r in cur.values()}       # nothing is in flight when the provider is asked
+                elif ev[0] == "reg":
+                    cur[ev[1]] = ev[2]
+                    live[ev[2]["rid"]] = ev[2]
+                elif ev[0] == "unreg":
+                    cur.pop(ev[1], None)
+                elif ev[0] == "run":
+                    body, rid = ev[1], ev[3]
+                    cands = [r for r in live.values() if (r["rid"] == rid if rid is not None else r["body"] == body)]
+                    if not cands:
+                        out.append(Violation("only_registered_tools_run", "only tools registered while the request is served run",
+                                             f"body {body} ran during `{line}` but the registry held "
+                                             f"{sorted((n, r['body']) for n, r in cur.items())}", idx))
+                    elif al is not None and not any(_required(r) <= set(al) for r in cands):
+                        out.append(Violation("least_privilege",
+                                             f"tool body {body} declared with {[sorted(_required(r)) for r in cands]} not executed under ceiling {al}",
+                                             f"executed during `{line}`", idx))
             if o.startswith("raise:") or " raise:" in o:
                 out.append(Violation("refusal_is_reported_not_raised", "a failure result", o, idx))
             t = line.split()
@@ -394,11 +767,13 @@ class C03(Prop):
                 target = t[1]
             elif t[0] == "met" and t[2].startswith("name:"):
                 target = t[2][5:]
-            if target is not None and target in inf["reg"] and al is not None:
-                need = self._required(inf["decl"][inf["reg"][target]])
+            if target is not None and target in inf["start_reg"] and al is not None:
+                need = _required(inf["start_reg"][target])
                 if not need <= set(al):
                     if not o.startswith("fail") or inf["ran"]:
-                        out.append(Violation("refusal_is_failure_without_effect", "failure result and no tool body run", o, idx))
+                        out.append(Violation("refusal_is_failure_without_effect",
+                                             f"`{target}` is registered with {sorted(need)} under ceiling {al}: failure result and no tool body run",
+                                             o, idx))
         return out
 
     def nontrivial(self, case, obs):
